@@ -99,6 +99,15 @@ Selected(k) == (k + Seed) % Stride = 0
 StrVal(p, len, tag) == [k |-> IF p.base = "string" THEN "str" ELSE "bytes", len |-> len, tag |-> tag]
 PresentFor(k, j) == IF Schema[k].params[j].flagged THEN {Schema[k].params[j].bit} ELSE {}
 
+IsVecParam(p) == p.vec \/ p.barevec
+VecObjParams(k) == {j \in DataIdx(k) : IsVecParam(Schema[k].params[j]) /\ ParamKind(Schema[k].params[j]) = "object"}
+VecParamsOf(ck) == {jj \in DataIdx(ck) : IsVecParam(Schema[ck].params[jj])}
+CtorsWithVec(t) == {ck \in TypeCtors(t) : Encodable(ck) /\ VecParamsOf(ck) # {}}
+InnerWithVec(t, i) ==
+  LET ck == CHOOSE c \in CtorsWithVec(t) : \A c2 \in CtorsWithVec(t) : c <= c2
+      jj == CHOOSE m \in VecParamsOf(ck) : \A m2 \in VecParamsOf(ck) : m <= m2
+  IN Base(ck, Bits(ck), "full", Pos(ck, jj) :> [k |-> "vec", e |-> [m \in 1..(i + 2) |-> FullScalar(Schema[ck].params[jj], m + 10 * i)]])
+
 Case(k, pat, v) == [name |-> Schema[k].name, idhex |-> Schema[k].idhex, pat |-> pat, val |-> v]
 Family(k) ==
   LET B == Bits(k)
@@ -124,7 +133,11 @@ Family(k) ==
                            [k |-> Schema[k].params[j].base, c |-> c]])) : c \in {"min", "max", "minus1", "one"}} ELSE {}
       enums == IF Selected(k) THEN {Case(k, "enum-member", Base(k, B, "full", Pos(k, j) :> EnumMember(Schema[k].params[j].base, n))) :
                                       j \in EnumParams(k), n \in 0..3} ELSE {}
-  IN basic \cup shared \cup sharedOnly \cup emptyvec \cup alone \cup strs \cup scal \cup enums
+      \* vectors inside the items of a vector, of growing sizes (3 items holding 3, 4 and 5): the writer of the outer vector
+      \* must not be disturbed by the writing of the inner ones
+      nested == {Case(k, "nested-vectors", Base(k, B, "full", Pos(k, j) :> [k |-> "vec", e |-> [i \in 1..3 |-> InnerWithVec(Schema[k].params[j].base, i)]])) :
+                   j \in {m \in VecObjParams(k) : CtorsWithVec(Schema[k].params[m].base) # {}}}
+  IN basic \cup shared \cup sharedOnly \cup emptyvec \cup alone \cup strs \cup scal \cup enums \cup nested
 
 \* strings at and beyond the format's limits: one string carrier and one bytes carrier
 HasStr(k, base) == \E m \in StrParams(k) : Schema[k].params[m].base = base
